@@ -21,7 +21,7 @@ static void sym_lits() {
   CTV_LIT_BOUNDS
 }
 
-static void load_program(VM &vm) {
+static void load_code(VM &vm) {
   V_SETN(vm.code.code, CTV_NCODE, Instruction::Halt());
   for (int i = 0; i < CTV_NCODE; i++) {
     Instruction ins; ins.op = (OpCode)VMCODE[i][0];
@@ -33,10 +33,43 @@ static void load_program(VM &vm) {
     ins.parameters.test.target = a; ins.parameters.test.op1 = b; ins.parameters.test.op2 = c;
     V_AT(vm.code.code, i) = ins;
   }
+}
+
+// C03(ii) / C16: the solver searches a routine annotation under which the compiled program is well-formed (expected: found)
+extern "C" void h_wf() {
+  sym_lits();
+  Program p; VM vm(p);
+  load_code(vm);
+  Ghost g; sym_ghost(g);
+  // C16: calls only go to routines whose code lies entirely before the call
+  bool order = true;
+  for (int i = 0; i < CTV_NCODE; i++) if (V_AT(vm.code.code, i).op == OpCode::EXEC) for (int j = 0; j < CTV_NCODE; j++) if (g.reg[j] == g.callee[i]) order = order && j < i;
+  bool wf = wf_program(vm, g, CTV_NCODE);
+  ASSERT(!wf, "C03(EXISTS): a routine annotation under which the compiled program is well-formed (WF: operands inside frames, jumps inside routines, call sequences agree with the callee)");
+  ASSERT(!(wf && order), "C16(EXISTS): a well-formed routine annotation in which every call goes to a routine whose code lies entirely before the call (acyclic call graph)");
+  // stack maps (read by getActivationVariables): every PREPARE names an existing map whose registers lie inside the frame it creates
+  bool sm = true;
+  for (int i = 0; i < CTV_NCODE; i++) if (V_AT(vm.code.code, i).op == OpCode::PREPARE_EXEC) {
+    int m = V_AT(vm.code.code, i).parameters.prepare.index, cnt = V_AT(vm.code.code, i).parameters.prepare.count;
+    sm = sm && m >= 0 && m < CTV_NSMAPS;
+    if (sm) sm = SMAP_MAXREG[m] < cnt;
+  }
+  ASSERT(sm, "C03: every PREPARE names an existing stack map whose registers all lie inside the frame it creates");
+  ASSERT(0, "WITNESS: end of h_wf reachable");
+}
+
+#ifndef CTV_WF_ONLY
+static void load_program(VM &vm) {
+  load_code(vm);
   for (int i = 0; i < CTV_NSITES; i++) {
     BreakPoint bp = {SITE_FILE[i] == 0 ? std::string("m") : std::string("i"), SITE_LINE[i]};
+#if defined(MINISTL) && defined(CTV_FLAT_TABLES)
+    // site-to-location table written directly in slot order (SITE_IDX is increasing); the location-to-sites table is not needed by these entries
+    vm.code.line_info.u.d[i].first = SITE_IDX[i]; vm.code.line_info.u.d[i].second = bp; vm.code.line_info.n = i + 1;
+#else
     vm.code.line_info[SITE_IDX[i]] = bp;
     vm.code.potential_breaks[bp].push_back(SITE_IDX[i]);
+#endif
   }
 }
 
@@ -229,20 +262,114 @@ extern "C" void h_ctv_hist() {
   ASSERT(0, "WITNESS: end of h_ctv_hist reachable");
 }
 
-// C03(ii): the solver searches a routine annotation under which the compiled program is well-formed (expected: found)
-extern "C" void h_wf() {
+// ---------------------------------------------------------------------------------------------------------------------------------------------
+// Per-construct SIMULATION obligations (C01, C07, C16 for executions of ANY length, also through loops and jumps): for every position (r, pc) of the
+// reference code, from an ARBITRARY pair of related states (VM at the instruction pointer that corresponds to (r, pc); every live reference variable
+// equal to its VM register; everything else arbitrary), one reference step and exactly cost(r, pc) real VM steps lead to related states again:
+// the VM is at the instruction pointer of the reference successor, the live variables agree, nothing outside the top frame changed, a stop is
+// reported exactly for a line event and names its file and line.  Relation + base case give, by induction over the execution, equal stops, equal
+// values at every stop, equal halting and the exact step count.  The instruction pointer is concrete in every obligation, which keeps them cheap.
+static bool live_at(int r, int pc, int i) { return ((LIVE[r][pc] >> i) & 1U) != 0; }
+
+static void sim_obligation(const int r, const int pc) {
+  Program p; VM vm(p);
+  load_program(vm);
+  vm.setSteppingMode(true);
+  const int *I = REFCODE[r][pc];
+  const int op = I[0], cost = I[4];
+  // ---- pre-state: callee-style routines have their caller's frame below them
+  bool has_caller = r != CTV_NR - 1;
+  int site = 0;
+  if (has_caller) { site = nondet_int(); ASSUME(site >= 0 && site < SIM_NCALLERS); ASSUME(CALLER_CALLEE[site] == r); }
+  int cr = has_caller ? CALLER_R[site] : 0, cpc = has_caller ? CALLER_PC[site] : 0;
+  int below = nondet_int(); ASSUME(below >= 0 && below <= 2);                 // words of activations further down (irrelevant, must stay unchanged)
+  if (!has_caller) ASSUME(below == 0);
+  int csize = has_caller ? FSIZE[cr] : 0;
+  int base = below + csize;                                                    // start of the top frame
+  int dn = base + FSIZE[r]; ASSUME(dn <= CTV_DW);
+  V_SETN(vm.data, CTV_DW, 0);
+  for (int i = 0; i < CTV_DW; i++) { int v = nondet_int(); ASSUME(v >= 0 && v < 2147483647); V_AT(vm.data, i) = v; }
+  V_SETN(vm.data, dn, 0);
+  V_SETN(vm.stack, 2, VM::Activation(&vm, 0, 0, 0, 0, 0));
+  if (has_caller) {
+    V_AT(vm.stack, 0) = VM::Activation(&vm, below, csize, 0, 0, cr);
+    V_AT(vm.stack, 1) = VM::Activation(&vm, base, FSIZE[r], FULLREG[cr][CALLER_TGT[site]], IPMAP[cr][cpc + 1], r);
+  } else {
+    V_AT(vm.stack, 0) = VM::Activation(&vm, 0, FSIZE[r], 0, -1, r);
+    V_SETN(vm.stack, 1, VM::Activation(&vm, 0, 0, 0, 0, 0));
+  }
+  vm.instruction_pointer = IPMAP[r][pc];
+  // reference state related to it
+  Ref R; ref_init(R); n_rev = 0;
+  R.depth = has_caller ? 2 : 1;
+  if (has_caller) { R.f[0].r = cr; R.f[0].pc = cpc + 1; R.f[0].tgt = 0; for (int i = 0; i < CTV_MAXV; i++) { int v = nondet_int(); ASSUME(v >= 0); R.f[0].v[i] = v; if (FULLREG[cr][i] >= 0 && live_at(cr, cpc + 1, i)) R.f[0].v[i] = V_AT(vm.data, below + FULLREG[cr][i]); } }
+  RFrame &T = R.f[R.depth - 1];
+  T.r = r; T.pc = pc; T.tgt = has_caller ? CALLER_TGT[site] : 0;
+  for (int i = 0; i < CTV_MAXV; i++) { int v = nondet_int(); ASSUME(v >= 0); T.v[i] = v; if (FULLREG[r][i] >= 0 && live_at(r, pc, i)) T.v[i] = V_AT(vm.data, base + FULLREG[r][i]); }
+  int pre_data[CTV_DW]; for (int i = 0; i < CTV_DW; i++) pre_data[i] = i < dn ? V_AT(vm.data, i) : 0;
+  // ---- one reference step, cost VM steps
+  ref_step(R);
+  ASSUME(R.in_range);
+  bool stop_last = false, stop_early = false; bool was_halt = false;
+  for (int s = 0; s < CTV_MAXCOST; s++) if (s < cost) {
+    if (V_AT(vm.code.code, vm.instruction_pointer).op == OpCode::HALT) was_halt = true;
+    bool st = vm.executeSingle();
+    if (s == cost - 1) stop_last = st; else stop_early = stop_early || st;
+  }
+  // ---- post-state
+  ASSERT(!stop_early, "C07: no stop is reported inside the instructions of one construct");
+  if (op == R_STOP || op == R_HALT) {
+    ASSERT(was_halt && stop_last && vm.isDone(), "C01: the machine is at its end exactly when the reference execution ends (STOP halts the whole machine)");
+  } else {
+    const RFrame &N = R.f[R.depth - 1];
+    ASSERT(!was_halt, "C01: the VM does not halt where the reference execution continues");
+    ASSERT(vm.instruction_pointer == IPMAP[N.r][N.pc], "C01: after the construct the VM is at the instruction that corresponds to the reference successor (same control flow, exact step count)");
+    ASSERT(stop_last == (op == R_LINE), "C07: a stop is reported exactly for the line event of a statement, loop header, END or label");
+    if (op == R_LINE) { BreakPoint bp = vm.getCurrentBreak(); ASSERT(bp.line == I[2] && bp.file == (I[1] == 0 ? std::string("m") : std::string("i")), "C07: the stop names the file and line of the construct"); }
+    ASSERT(V_N(vm.stack) == R.depth, "C16: the VM has exactly the activations of the reference execution");
+    int nbase = V_AT(vm.stack, R.depth - 1).data_start;
+    if (op == R_CALL) ASSERT(nbase == dn && V_AT(vm.stack, R.depth - 1).seg_size == FSIZE[N.r] && V_AT(vm.stack, R.depth - 1).debug_info == N.r, "C01: a call creates the callee's frame on top of the caller's");
+    else if (op == R_RET) ASSERT(nbase == below && V_N(vm.data) == base, "C01: a return resumes the caller and releases the callee's frame");
+    else ASSERT(nbase == base && V_N(vm.data) == dn, "C01: a construct other than call/return keeps the activation stack");
+    bool rel = true;
+    for (int i = 0; i < CTV_MAXV; i++) if (FULLREG[N.r][i] >= 0 && live_at(N.r, N.pc, i)) { int idx = nbase + FULLREG[N.r][i]; rel = rel && idx >= 0 && idx < V_N(vm.data); if (rel) rel = (long)V_AT(vm.data, idx) == N.v[i]; }
+    ASSERT(rel, "C01: after the construct every live variable of the running activation has its reference value");
+    // frame condition: words below the running activation are untouched (a return writes exactly its target)
+    bool frame = true;
+    int keep = (op == R_RET) ? base : base;   // words [0, keep) belong to older activations or (after RET) to the caller
+    for (int i = 0; i < CTV_DW; i++) if (i < (op == R_RET ? base : base)) {
+      bool is_target = op == R_RET && i == below + FULLREG[cr][CALLER_TGT[site]];
+      if (!is_target) frame = frame && V_AT(vm.data, i) == pre_data[i];
+    }
+    ASSERT(frame, "C01: a construct changes no word of an older activation (except the return target)");
+    (void)keep;
+  }
+  ASSERT(0, "WITNESS: end of sim_obligation reachable");
+}
+
+// one entry per reference position (separate solver queries, run in parallel)
+#define SIM_ENTRY(k) extern "C" void h_sim_##k() { sym_lits(); sim_obligation(SIM_R[(k) < SIM_NOPS ? (k) : 0], SIM_PC[(k) < SIM_NOPS ? (k) : 0]); }
+SIM_ENTRY(0) SIM_ENTRY(1) SIM_ENTRY(2) SIM_ENTRY(3) SIM_ENTRY(4) SIM_ENTRY(5) SIM_ENTRY(6) SIM_ENTRY(7) SIM_ENTRY(8) SIM_ENTRY(9)
+SIM_ENTRY(10) SIM_ENTRY(11) SIM_ENTRY(12) SIM_ENTRY(13) SIM_ENTRY(14) SIM_ENTRY(15) SIM_ENTRY(16) SIM_ENTRY(17) SIM_ENTRY(18) SIM_ENTRY(19)
+SIM_ENTRY(20) SIM_ENTRY(21) SIM_ENTRY(22) SIM_ENTRY(23) SIM_ENTRY(24) SIM_ENTRY(25) SIM_ENTRY(26) SIM_ENTRY(27) SIM_ENTRY(28) SIM_ENTRY(29)
+SIM_ENTRY(30) SIM_ENTRY(31) SIM_ENTRY(32) SIM_ENTRY(33) SIM_ENTRY(34) SIM_ENTRY(35) SIM_ENTRY(36) SIM_ENTRY(37) SIM_ENTRY(38) SIM_ENTRY(39)
+
+// base case of the simulation: the constructed machine reaches the first reference position of the main program with an all-zero frame
+extern "C" void h_sim_base() {
   sym_lits();
   Program p; VM vm(p);
   load_program(vm);
-  Ghost g; sym_ghost(g);
-  // C16: calls only go to routines whose code lies entirely before the call
-  bool order = true;
-  for (int i = 0; i < CTV_NCODE; i++) if (V_AT(vm.code.code, i).op == OpCode::EXEC) for (int j = 0; j < CTV_NCODE; j++) if (g.reg[j] == g.callee[i]) order = order && j < i;
-  bool wf = wf_program(vm, g, CTV_NCODE);
-  ASSERT(!wf, "C03(EXISTS): a routine annotation under which the compiled program is well-formed (WF: operands inside frames, jumps inside routines, call sequences agree with the callee)");
-  ASSERT(!(wf && order), "C16(EXISTS): a well-formed routine annotation in which every call goes to a routine whose code lies entirely before the call (acyclic call graph)");
-  ASSERT(0, "WITNESS: end of h_wf reachable");
+  vm.setSteppingMode(true);
+  bool stop = false;
+  for (int s = 0; s < CTV_NR; s++) stop = stop || vm.executeSingle();     // root PREPARE + one JMP per definition
+  ASSERT(!stop && vm.instruction_pointer == IPMAP[CTV_NR - 1][0], "C01: execution starts at the first construct of the main program");
+  bool zero = V_N(vm.stack) == 1 && V_AT(vm.stack, 0).data_start == 0 && V_AT(vm.stack, 0).seg_size == FSIZE[CTV_NR - 1] && V_AT(vm.stack, 0).debug_info == CTV_NR - 1 && V_N(vm.data) == FSIZE[CTV_NR - 1];
+  for (int i = 0; i < CTV_DW; i++) if (i < V_N(vm.data)) zero = zero && V_AT(vm.data, i) == 0;
+  ASSERT(zero, "C01: all variables of the main program are zero-initialised");
+  ASSERT(0, "WITNESS: end of h_sim_base reachable");
 }
+
+#endif  // CTV_WF_ONLY
 
 #ifndef MINISTL
 NATIVE_MAIN(NATIVE_ENTRY)
